@@ -9,7 +9,7 @@
    The accessor clause is proved for ALL words w, not only cards: every accessor of the Rust code
    masks with RANK_FLAG_FILTER (bits 16-28), SUIT_FILTER (bits 12-15) or RANK_PRIME_FILTER
    (bits 0-5), none of which overlaps bits 29-31. *)
-From CKC Require Import Base.Prelude Base.Reflect Spec.Layout Model.Card Proofs.CardBase Proofs.FilterExact Proofs.AccRankSuit Proofs.AccFields Proofs.AccChars Proofs.C11.
+From CKC Require Import Base.Prelude Base.Reflect Spec.Layout Model.Card Proofs.CardBase Proofs.C11.
 From CKC Require Import Gen.Consts.
 Open Scope N_scope.
 
@@ -270,18 +270,7 @@ Proof.
   repeat split; try assumption. apply is_blank_same. apply layout_nonzero; assumption.
 Qed.
 
-(* the decoded values themselves, composing with C10's accessor facts *)
-Lemma card_reads r s m : r < 13 -> s < 4 -> In m MARKS ->
-  let w := mark m (layout r s) in
-  get_card_rank w = rank_variant r /\ get_card_suit w = suit_variant s /\ get_rank_prime w = prime_of r /\
-  get_rank_char w = nthN RANK_CHARS r 0 /\ get_suit_char w = nthN SUIT_GLYPHS s 0 /\
-  get_suit_letter w = nthN SUIT_LETTERS s 0.
-Proof.
-  intros Hr Hs Hm w. subst w.
-  destruct (accessors_same m (layout r s) Hm) as (-> & -> & -> & -> & -> & -> & _).
-  destruct (acc_rank_suit r s Hr Hs) as (A1 & A2 & _). destruct (acc_fields r s Hr Hs) as (A3 & _).
-  destruct (acc_chars r s Hr Hs) as (A4 & A5 & A6). cbv zeta in *. repeat split; assumption.
-Qed.
+
 
 Lemma card_strip r s m : r < 13 -> s < 4 -> In m MARKS ->
   strip_multiples_flags (mark m (layout r s)) = layout r s.
@@ -322,12 +311,4 @@ Proof.
   rewrite (mark_add m _ Hm (layout_small r s Hr Hs)), (mark_add m _ Hm (layout_small r' s' Hr' Hs')). lia.
 Qed.
 
-(* a marked word is never accepted as a card by the filter ("stripped for evals") *)
-Lemma marked_not_real m w : In m MARKS -> m <> 0 -> w < 2 ^ 29 -> filter (mark m w) = 0.
-Proof.
-  intros Hm Hne Hw. apply filter_not_real. intros (r & s & Hr & Hs & E).
-  pose proof (layout_small r s Hr Hs) as Hl. rewrite <- E in Hl.
-  pose proof (order_marked_unmarked m w 0 Hm Hne Hw ltac:(lia)) as _.
-  rewrite (mark_add m w Hm Hw) in Hl.
-  destruct (marks_facts m Hm) as (_ & _ & _ & _ & _ & _ & [H|H]); [contradiction | lia].
-Qed.
+
